@@ -131,6 +131,8 @@ def hessian_of_logd(d, n, center=None):
     def f(x):
         try:
             v = d.logd(x)
+            if not np.all(np.isfinite(np.ravel(v))):       # e.g. logdet = inf from stored DIA padding (C04's finding): use the
+                v = d._logupdf(x)                          # un-normalised log-density, same quadratic form
         except NotImplementedError:
             v = d._logupdf(x)
         return float(np.ravel(v)[0])
@@ -244,6 +246,53 @@ def gaussian_configs(ctx):
     return cfgs
 
 
+SPARSE_FORMATS = ("dia", "csr", "csc", "coo", "bsr", "lil")
+STRUCTURES = ("diag", "upper-bidiag", "lower-bidiag", "tridiag", "full")
+DENSE_VARIANTS = {
+    "matrix": lambda M: np.matrix(np.asarray(M, dtype=float)),                 # ndarray subclass
+    "fortran": lambda M: np.asfortranarray(np.asarray(M, dtype=float)),        # column-major memory
+    "int": lambda M: np.asarray(M).astype(int),                                # integer dtype
+    "list": lambda M: np.asarray(M, dtype=float).tolist(),                     # nested python lists
+    "float32": lambda M: np.asarray(M).astype(np.float32),
+    "noncontig": lambda M: np.kron(np.asarray(M, dtype=float), np.ones((1, 2)))[..., ::2] if np.ndim(M) == 2
+                 else np.repeat(np.asarray(M, dtype=float), 2)[::2],           # strided view
+}
+MEAN_VARIANTS = {       # name -> (constructor of the mean from a list of n floats, inside the documented domain?)
+    "pyint": (lambda v: int(v[0]), True), "pyfloat": (lambda v: float(v[0]), True), "list": (lambda v: list(v), True),
+    "intarr": (lambda v: np.array([int(x) for x in v]), True), "1elem": (lambda v: np.array([v[0]]), True),
+    "tuple": (lambda v: tuple(v), True),
+    "0d": (lambda v: np.array(v[0]), False), "col": (lambda v: np.array(v).reshape(-1, 1), False),
+    "row": (lambda v: np.array(v).reshape(1, -1), False), "1x1": (lambda v: np.array([[v[0]]]), False),
+    "matrixrow": (lambda v: np.matrix([v]), False),
+}
+
+
+def to_sparse(M, fmt):
+    """dense M in the given scipy storage format.  DIA with bands is built the way the class docstring does it, by
+    spdiags with FULL data rows (the entries DIA never reads are filled with the band's value, not with zero), so that
+    the storage holds more numbers than the matrix has -- storage format and structure are different things."""
+    import scipy.sparse as spa
+    M = np.asarray(M, dtype=float)
+    n = M.shape[0]
+    if fmt == "dia":
+        offs = [o for o in range(-(n - 1), n) if np.any(np.diag(M, o))]
+        if len(offs) <= 3:
+            data = np.zeros((len(offs), n))
+            for k, o in enumerate(offs):
+                dg = np.diag(M, o)
+                row = np.full(n, dg[0])
+                if o >= 0:
+                    row[o:] = dg
+                else:
+                    row[:n + o] = dg
+                data[k] = row
+            A = spa.spdiags(data, offs, n, n)
+            assert np.array_equal(A.toarray(), M)
+            return A
+        return spa.dia_matrix(M)
+    return getattr(spa, fmt + "_matrix")(M)
+
+
 def build_gaussian(meta):
     import cuqi, scipy.sparse as spa
     form, shp = meta["form"], meta["shape"]
@@ -254,9 +303,16 @@ def build_gaussian(meta):
         v = np.array(val, dtype=float)
     else:
         v = np.array(val, dtype=float)
-        if meta["sparse_input"]:
+        if meta.get("sparse_format"):
+            v = to_sparse(v, meta["sparse_format"])
+        elif meta["sparse_input"]:
             v = spa.csr_matrix(v)
+    if meta.get("variant"):
+        v = DENSE_VARIANTS[meta["variant"]](val)
     mean = meta["mean"]
+    if meta.get("mean_variant"):
+        mean = MEAN_VARIANTS[meta["mean_variant"]][0](mean if isinstance(mean, list) else [mean])
+        return quiet(cuqi.distribution.Gaussian, mean, **{form: v})
     mean = float(mean) if not isinstance(mean, list) else np.array(mean, dtype=float)
     kw = {form: v}
     if isinstance(mean, float) and shp == "scalar":
@@ -292,8 +348,20 @@ def gaussian_cases(ctx, cases):
 
 def gaussian_case(ctx, meta, states=None):
     import scipy.sparse as spa
-    d = build_gaussian(meta)
     n = meta["dim"]
+    if meta.get("may_refuse"):
+        # inputs the code may refuse (outside the documented domain, or refused by a proposed repair of another property):
+        # an exception anywhere is a refusal; silently wrong draws are not
+        try:
+            d = build_gaussian(meta)
+            S_st = d.sqrtprec
+            off, T, calls = read_affine(d, n, 1, meta["iface"])
+            hessian_of_logd(d, n, center=np.zeros(n))
+            if np.asarray(d.mean).ndim != 1 or d.dim != n:
+                raise ValueError("mean is stored with shape %s" % (np.shape(d.mean),))
+        except Exception as e:
+            return Case(expr="true", meta=meta, cell="gaussian/%s/refused" % meta.get("cellname", "input"), trivial=True, kind="DECISION")
+    d = build_gaussian(meta)
     S_st = d.sqrtprec
     sparse = bool(spa.issparse(S_st))
     S = dense(S_st)
@@ -304,6 +372,8 @@ def gaussian_case(ctx, meta, states=None):
     branch = "sparse" if sparse else ("tri" if lower else "general")
     cell = "gaussian/%s:%s%s/%s/%s" % (meta["form"], meta["shape"], "(sparse)" if meta["sparse_input"] else "", branch,
                                        "big" if n > 10 else "small")
+    if meta.get("cellname"):
+        cell = "gaussian/%s/%s/%s" % (meta["cellname"], branch, "big" if n > 10 else "small")
     expr = "check_gauss %s %s %s %s %s" % (cbool(sparse), cqv(mean), cqm(S), cqv(off), cqm(T))
     if meta["form"] == "sqrtprec":
         v = meta["value"]
@@ -330,6 +400,118 @@ def gaussian_case(ctx, meta, states=None):
         states[st] = states.get(st, 0) + 1
     trivial = bool(np.array_equal(S, np.eye(n)) and not np.any(bm))
     return Case(expr=expr, meta=meta, cell=cell, trivial=trivial, kind="EXACT", impl_fail=fail, signature=sig)
+
+
+def struct_matrix(rng, n, struct, spd=False):
+    """well-conditioned (diagonally dominant) dyadic matrix with the given sparsity structure"""
+    dg = np.array([rng.choice([1.0, 2.0, 1.5, 3.0]) for _ in range(n)])
+    M = np.diag(dg)
+    band = lambda: np.array([rng.choice([0.5, -0.25, 0.25, -0.5]) for _ in range(n - 1)])
+    if spd:
+        if struct == "tridiag":
+            b = band()
+            M = np.diag(dg + 1.0) + np.diag(b, 1) + np.diag(b, -1)
+        elif struct == "full":
+            A = np.array([[rng.choice([1, -1, 2, 0]) / 64.0 for _ in range(n)] for _ in range(n)])
+            M = np.diag(dg + 3.0) + (A + A.T) / 2
+        return M
+    if struct in ("upper-bidiag", "tridiag"):
+        M = M + np.diag(band(), 1)
+    if struct in ("lower-bidiag", "tridiag"):
+        M = M + np.diag(band(), -1)
+    if struct == "tridiag":
+        M = M + np.eye(n)
+    if struct == "full":
+        A = np.array([[rng.choice([1, -1, 2, 3]) / 64.0 for _ in range(n)] for _ in range(n)])
+        M = np.diag(dg + 3.0) + A
+    return M
+
+
+def gaussian_format_cases(ctx, cases):
+    """storage format x structure: every scipy sparse format holding every structure, for every parameterisation that
+    accepts a sparse matrix, on both sides of the dense/sparse threshold (MIN_DIM_SPARSE = 75)"""
+    rng = ctx.rng
+    states = {}
+    k = 0
+    def emit(form, struct, fmt, n, iface):
+        spd = form in ("prec", "cov")
+        M = struct_matrix(rng, n, struct, spd=spd)
+        meta = {"op": "gaussian", "form": form, "shape": struct, "sparse_input": True, "sparse_format": fmt, "dim": n,
+                "value": M.tolist(), "mean": [dy(rng) for _ in range(n)] if n <= 10 else dy(rng), "mean_kind": "vector" if n <= 10 else "scalar",
+                "iface": iface, "cellname": "%s:%s[%s]" % (form, struct, fmt),
+                "may_refuse": fmt == "dia" and struct not in ("diag",)}       # fixes/C04_gaussian_sqrtprec_dia_bands.diff may turn these into refusals
+        cases.extend(split_verdict(gaussian_case(ctx, meta, states)))
+    forms = {"sqrtprec": STRUCTURES, "sqrtcov": STRUCTURES, "prec": ("diag", "tridiag", "full"), "cov": ("diag", "tridiag", "full")}
+    small = [4] if not ctx.thorough else [3, 5, 6]
+    for n in small:
+        for form, structs in forms.items():
+            for struct in structs:
+                for fmt in SPARSE_FORMATS:
+                    k += 1
+                    emit(form, struct, fmt, n, ["rng", "global", "N1"][k % 3])
+    bigs = [76, 77] if not ctx.thorough else [74, 75, 76, 77]
+    for form, structs in forms.items():
+        for struct in structs:
+            for fmt in SPARSE_FORMATS:
+                if not ctx.thorough and not (form == "sqrtprec" and struct in ("upper-bidiag", "lower-bidiag", "tridiag")
+                                             or (fmt in ("dia", "coo") and struct == "tridiag")):
+                    continue
+                k += 1
+                emit(form, struct, fmt, bigs[k % len(bigs)], ["rng", "N1"][k % 2])
+
+
+def int_matrix(rng, n, shape):
+    for _ in range(200):
+        L = np.zeros((n, n))
+        for i in range(n):
+            L[i, i] = rng.choice([1, 2, -1, 4])
+            for j in range(i):
+                L[i, j] = rng.choice([0, 1, -1, 2])
+        if not np.any(np.tril(L, -1)):
+            L[n - 1, 0] = 1
+        if shape == "lower":
+            M = L
+        elif shape == "upper":
+            M = L.T.copy()
+        elif shape == "full":
+            M = L + np.triu(np.roll(L, 1, axis=0).T, 1)
+        elif shape == "spd":
+            M = L.T @ L + np.eye(n)
+        if well_conditioned(M, 500):
+            return M
+    raise RuntimeError("no well-conditioned integer matrix")
+
+
+def gaussian_variant_cases(ctx, cases):
+    """representation x content: the same numbers as ndarray subclasses, column-major / strided memory, integer and single
+    precision dtypes, nested lists; and the mean in every scalar / 0-d / 1-d / 2-d guise"""
+    rng = ctx.rng
+    states = {}
+    k = 0
+    n = 3
+    for variant in DENSE_VARIANTS:
+        for form, shape in (("sqrtprec", "lower"), ("sqrtprec", "upper"), ("sqrtprec", "full"), ("cov", "spd"), ("prec", "spd"),
+                            ("sqrtcov", "lower"), ("sqrtcov", "full"), ("cov", "vector"), ("sqrtprec", "vector")):
+            for rep in range(ctx.n(1, 3)):
+                k += 1
+                if shape == "vector":
+                    if variant == "matrix":
+                        continue
+                    val = [float(rng.choice([1, 4, 9, 2])) for _ in range(n)]
+                else:
+                    val = int_matrix(rng, n, shape).tolist()
+                meta = {"op": "gaussian", "form": form, "shape": shape, "sparse_input": False, "variant": variant, "dim": n, "value": val,
+                        "mean": [float(rng.randint(-3, 3)) for _ in range(n)], "mean_kind": "vector", "iface": ["rng", "global", "N1"][k % 3],
+                        "cellname": "%s:%s<%s>" % (form, shape, variant)}
+                cases.extend(split_verdict(gaussian_case(ctx, meta, states)))
+    for mv, (_, in_domain) in MEAN_VARIANTS.items():
+        for form, shape in (("sqrtprec", "upper"), ("cov", "spd"), ("cov", "vector")):
+            k += 1
+            val = int_matrix(rng, n, shape).tolist() if shape != "vector" else [float(rng.choice([1, 4, 9, 2])) for _ in range(n)]
+            meta = {"op": "gaussian", "form": form, "shape": shape, "sparse_input": False, "mean_variant": mv, "dim": n, "value": val,
+                    "mean": [float(rng.randint(-3, 3)) for _ in range(n)], "mean_kind": mv, "iface": ["rng", "global", "N1"][k % 3],
+                    "cellname": "%s:%s|mean=%s" % (form, shape, mv), "may_refuse": not in_domain}
+            cases.extend(split_verdict(gaussian_case(ctx, meta, states)))
 
 
 def lognormal_cases(ctx, cases):
@@ -1238,6 +1420,8 @@ def run(ctx):
     st_saved = np.random.get_state()
     try:
         gaussian_cases(ctx, cases)
+        gaussian_format_cases(ctx, cases)
+        gaussian_variant_cases(ctx, cases)
         lognormal_cases(ctx, cases)
         gmrf_cases(ctx, cases)
         univariate_cases(ctx, cases)
